@@ -29,7 +29,7 @@ IMMUTABLE, ROUTINE, CONTAINER_RO, CALLABLE, COPIED = "immutable", "routine-objec
 
 # every memoised function of the package and what it returns
 MEMOISED = {
-    "typelib.binding._get_binding": ROUTINE,
+    "typelib.binding._get_cached_binding": ROUTINE,
     "typelib.codecs.codec": ROUTINE,
     "typelib.graph.static_order": CONTAINER_RO,
     "typelib.marshals.api.marshaller": ROUTINE,
